@@ -4,7 +4,7 @@ from ..core import Suite
 
 STYLES = ["saturated", "saturated", "mixed"]
 SUITES = [Suite("prio2-det", prio.prio_generate(0.0, STYLES), prio.prio_project("C05"), prio.monitor_prio("C05"),
-                rule=prio.PRIO_RULE, version="v2", impl_ints=False, batch_timeout=600)]
+                rule=prio.PRIO_RULE, version="v2", impl_ints=False, batch_timeout=600, shrink=prio.shrink_prio2)]
 ASSUMPTIONS = [
     "model: the scheduling goroutine as a program-counter machine (Prio2.sched_step) over FIFO-list channels; the driver of Prio2Sim.v "
     "(run to a blocked state / settle to a fixpoint) is used only for the correspondence",
